@@ -39,6 +39,18 @@ func (Engine) Info(prop string) core.Info {
 			ThoroughRuns: 80000,
 			WatchdogSec:  120,
 		}
+	case "C02":
+		return core.Info{
+			Level:           "fault_enumeration",
+			Rule:            "one plan = two mailboxes (1-4 messages each way, thorough up to 7; some already present at the peer), 0-2 seeded faulty sessions, then the target session, then fault-free sessions until one completes. A pilot records the target session's transcript length per direction and its ProcessInbound calls; then every fault is executed as its own chain in its own simulated run: the link cut after every delivered byte offset k in [0,N] of either direction (both ends see EOF; later writes fail or, for a third of the offsets, succeed silently), and a storage error on the i-th inbound message for every i at either station (quick tier: at most 2500 offsets per direction - both ends of the transcript plus a seeded sample). Oracle: both Exchange calls return within 5 simulated minutes of each other once one has ended; SetSent only for messages the peer's handler completely received (or already had); everything handed to a handler is byte-identical to the queued message; never stored twice, never reported sent twice; after the first completed fault-free session everything is delivered, reported sent and nothing is pending. evaluations = executed chains; distinct = distinct event-log hashes (first 4096 per plan).",
+			Real:            realCode,
+			Stub:            []string{"clock (testing/synctest)", "link with cut faults (sim/pipe)", "mailbox handlers (ref/mbox with storage-error knob)"},
+			Assumptions:     []string{"answer policies other than 'accept' and 'already received' are left to C01", "library runs on the Go 1.26.8 standard library"},
+			QuickRuns:       48,
+			ThoroughRuns:    3000,
+			WatchdogSec:     900,
+			HangIsViolation: true,
+		}
 	case "C03":
 		return core.Info{
 			Level:           "exploration",
@@ -97,6 +109,8 @@ func (Engine) Generate(prop, tier string, r *core.Rand, run int) any {
 		return genC05(tier, r)
 	case "C16":
 		return genC16(tier, r)
+	case "C02":
+		return genC02(tier, r)
 	case "C03":
 		return genC03(tier, r)
 	case "C04":
@@ -115,6 +129,8 @@ func (Engine) Execute(t *testing.T, prop string, plan json.RawMessage, trace boo
 		return execC05(t, prop, plan, trace)
 	case "C16":
 		return execC16(t, prop, plan, trace)
+	case "C02":
+		return execC02(t, prop, plan, trace)
 	case "C03":
 		return execC03(t, prop, plan, trace)
 	case "C04":
